@@ -117,7 +117,10 @@ func genExt4History(r *core.Rng, tier string, idx int, wide bool) *core.Trace {
 		}
 	}
 	for i := 0; i < nops; i++ {
-		switch r.PickW(10, 12, 24, 8, 8, 9, 6, 6, 6, 5, 3, 3) {
+		switch r.PickW(10, 12, 24, 8, 8, 9, 6, 6, 6, 5, 3, 3, 2) {
+		case 12:
+			// fill the volume with files of mixed sizes until it refuses, free every other one, fill again
+			t.Ops = append(t.Ops, core.Op{K: "fillup", A: r.Range(0, 1000)})
 		case 0:
 			t.Ops = append(t.Ops, core.Op{K: "mkdir", P: dirPaths[1+r.Intn(3)]})
 		case 1:
@@ -560,6 +563,67 @@ func (x *ext4Run) step(o core.Op) *core.Violation {
 		}
 		x.locus = lib + ".(*File).Write"
 		return x.writeFile(o.P, off, data, o.K == "append")
+	case "fillup":
+		if x.size > 48<<20 {
+			return nil // filling is for small volumes
+		}
+		if n := m.get("fill"); n != nil && (!n.dir || n.tainted) {
+			return nil
+		}
+		x.trig, x.locus = "fillup", lib+".(*FileSystem).allocateExtents"
+		if m.get("fill") == nil {
+			var err error
+			if v := x.call(func() { err = x.fs.Mkdir("fill") }); v != nil {
+				return v
+			}
+			if err != nil {
+				x.lastErr = true
+				x.resync("fill")
+				return nil
+			}
+			m.put("fill", &mnode{dir: true})
+			x.mutated = true
+		}
+		sz := []int64{1 << 20, 300000, 65536, 5000, 1024, 100, 1 << 20, 3 << 20}
+		var made []string
+		for round := 0; round < 2; round++ {
+			for i := 0; i < 120; i++ {
+				x.seq++
+				p := fmt.Sprintf("fill/f%04d.bin", x.seq)
+				ok, v := x.createFile(p)
+				if v != nil {
+					return v
+				}
+				if !ok {
+					break
+				}
+				data := core.PatternBytes(uint64(o.A)+uint64(x.seq), sz[(i+int(o.A))%len(sz)])
+				if v := x.writeFile(p, 0, data, false); v != nil {
+					return v
+				}
+				if x.lastErr {
+					x.res.Probe("fill-reached-refusal")
+					break
+				}
+				made = append(made, p)
+			}
+			if round == 0 {
+				// release every other file and fill the gaps with the next round
+				for k := 0; k < len(made); k += 2 {
+					var err error
+					p := made[k]
+					if v := x.call(func() { err = x.fs.Remove(p) }); v != nil {
+						return v
+					}
+					if err != nil {
+						x.resync(p)
+						continue
+					}
+					m.del(p)
+					x.mutated = true
+				}
+			}
+		}
 	case "symlink":
 		if !parentOK(o.P) || m.get(o.P) != nil {
 			return nil
